@@ -432,6 +432,38 @@ def dim_ints(chk, tier, stack):
                             judge(chk, "int", c, stack, b"", False, enc, f"{name}:{kind}:{type(v).__name__}:{enc}")
 
 
+STATS_HOSTILE = ["items\r\nflush_all", b"items\r\nflush_all", "slabs\nflush_all", b"x\r\nset k 0 0 1\r\nv", "a\rb",
+                 "a\x00b", "detail on", b"cachedump 1 10", " ", "\r\n", "k" * 251, "caf\u00e9"]
+
+
+def _hx(arg):
+    return ["s", arg] if isinstance(arg, str) else ["b", arg.hex()]
+
+
+def _unhx(v):
+    return v[1] if v[0] == "s" else bytes.fromhex(v[1])
+
+
+def stats_hostile_case(cls, cargs, stack, arg):
+    """-> [] or [text]: stats(arg) either raises having written nothing, or writes exactly one stats line"""
+    mod = RecModule(b"STAT pid 1\r\nEND\r\n")
+    obj = cls(*cargs, socket_module=mod, default_noreply=False)
+    try:
+        obj.stats(arg)
+        res = "ok"
+    except Exception as e:
+        res = "exc:" + type(e).__name__
+    sent = b"".join(mod.sent)
+    if not sent:
+        return []
+    items, residue = parse_all(sent)
+    one_line = sent.endswith(b"\r\n") and not any(c in sent[:-2] for c in b"\r\n\x00")
+    if residue or len(items) != 1 or getattr(items[0], "verb", None) != b"stats" or not one_line:
+        return [f"{stack}.stats({arg!r}) wrote {sent!r}, which a server reads as {items}{' + ' + repr(residue) if residue else ''} "
+                f"- not one stats command (call ended: {res})"]
+    return []
+
+
 def dim_admin(chk, tier, stack):
     """commands that take no key: a configured key prefix must not leak into their arguments"""
     cls, cargs = STACKS[stack]
@@ -466,6 +498,16 @@ def dim_admin(chk, tier, stack):
                               f"{stack}(key_prefix={prefix!r}).{name}{args!r} wrote {sent!r} = {items}, intended {want} (call ended: {res})",
                               {"call": None, "admin": [name, list(args)], "stack": stack, "prefix_hex": prefix.hex(),
                                "unicode": False, "encoding": "ascii", "dim": "admin", "klass": name})
+    # hostile arguments of `stats`: refused before anything is written, or written as ONE stats command line
+    if hasattr(cls, "stats"):
+        for arg in STATS_HOSTILE:
+            chk.add()
+            chk.outcome(("admin-hostile", stack, repr(arg)))
+            bad = stats_hostile_case(cls, cargs, stack, arg)
+            if bad:
+                chk.violation(f"injection|{stack}.stats|admin:hostile-argument", bad[0],
+                              {"call": None, "admin_hostile": _hx(arg), "stack": stack, "prefix_hex": "",
+                               "unicode": False, "encoding": "ascii", "dim": "admin", "klass": "stats"})
 
 
 def dim_multi(chk, tier, stack):
